@@ -42,6 +42,8 @@ NOTES = {  # seed -> (detected_by, note) overriding / complementing the logged r
  'C33-r2-2': ('C33 (file-bytes)', 'missed at first: no file was appended to while another append to it was already open; caught after the nested appends `function f { P >> file; Q }; f >> file` were added'),
  'C32-r2-1': ('C32 (race report ParseFlags vs Parameters readers)', 'missed at first: no program ran `args` next to a stage that expands the parameters; caught after the program params-shared-by-stages and, independently, by the new object-level part (every pair of operations of every shared table)'),
  'C32-r2-2': ('C32 (race report Variables.Unset vs set)', 'missed at first: no program unset a variable while another job assigned one; caught by the new object-level part (every pair of operations of every shared table: `Set || Unset` on one table)'),
+ 'C19-r2-1': ('C19 (caller-not-blocked)', 'the check as it stood would have missed it (no operation whose pipe constructor fails — the round-1 limit C19-2 — and a child murex that never returns was only reported as inconclusive); caught after the operation `pipe a --file /no/such/dir/x` joined the child sequences and a child whose every thread sleeps without consuming CPU for 25 s is declared blocked'),
+ 'C23-r2-2': ('C23 (binding)', 'missed at first: every argument of the alphabet was already in canonical form and only the stored value was compared, not the text the variable expands to; caught after the arguments 007 and 1e2 and the expansion text joined the comparison'),
  'C26-r2-1': ('C26 (pipe-closed-once)', 'missed at first (the registry-level model cannot see a pipe being closed twice); caught after a counted pipe type and the clause "the registry closes a pipe object at most once" were added'),
  'C03-r2-1': ('C03 (sequential-meaning)', 'missed at first: no program used the method form of if, and the differential oracle alone does not see a change that makes every explored schedule wrong in the same way; caught after the program and literal expectations were added'),
  'C03-r2-2': ('C03 (sequential-meaning)', 'missed at first: no program had a downstream stage that ignores its stdin followed by a statement writing to the same stream; caught after the program and its literal expectation were added'),
@@ -59,6 +61,10 @@ for m in re.finditer(r'SEED(2?) (C\d\d)-(\d) verify: (\{.*\})', logs):
 for m in re.finditer(r'SEED(2?) (C\d\d)-(\d) check (C\d\d) rc=(\d+) :: (.*?) :: (.*)', logs):
     k = key(m.group(1), m.group(2), m.group(3))
     seeds.setdefault(k, {'verify': None, 'checks': []})['checks'].append({'check': m.group(4), 'rc': int(m.group(5)), 'first': m.group(6).strip(), 'summary': m.group(7).strip()})
+EXCLUDE = {
+ 'C32-r2-1': 'made harmless by fix b8afcfe: on the repaired tree its own demonstration passes',
+ 'C07-r2-2': 'swaps the relative precedence of && and ||, which the property does not fix (it speaks of parenthesised expressions; each operator still follows truthiness): not a violation of C07 as stated, and the check rightly stays silent',
+}
 # earlier manual confirmations
 MANUAL_OK = {'C21-2', 'C19-2', 'C01-r2-1', 'C01-r2-2', 'C28-r2-2', 'C32-r2-2', 'C13-r2-1', 'C13-r2-2', 'C24-r2-1'}
 for k in ['C01-1','C01-2','C03-1','C03-2','C05-1','C05-2','C26-1','C26-2','C28-1','C28-2']:
@@ -75,6 +81,8 @@ for k in sorted(seeds):
         continue
     if k in MANUAL_OK and v:
         v.update({'applies': True, 'demo_fails_with_change': True, 'demo_passes_without_change': True, 'demo_confirmed': 'by hand'})
+    if k in EXCLUDE:
+        rows.append((k, 'NOT KEPT (' + EXCLUDE[k] + ')')); shutil.rmtree(dst, ignore_errors=True); continue
     ok = v and all(v.get(x) for x in ('applies','builds','existing_tests_pass','demo_fails_with_change','demo_passes_without_change'))
     if not ok:
         rows.append((k, f'NOT KEPT (confirmation incomplete: {v})')); continue
